@@ -158,6 +158,14 @@ class D1:
         while e[0] == "call" and e[1] in ("core::cmp::Ordering::reverse",):
             flips += 1
             e = e[2][0]
+        # `Some(a.cmp(b))` is partial_cmp for every type whose PartialOrd agrees with its Ord: the byte/str slices, and the
+        # crate's own types, whose Ord impl is analysed as the `cmp` instance of this rule
+        if method == "partial_cmp" and e[0] == "agg" and isinstance(e[1], tuple) and e[1][1] == "core::option::Option::Some" and len(e[2]) == 1:
+            e = e[2][0]
+            method = "cmp"
+            while e[0] == "call" and e[1] in ("core::cmp::Ordering::reverse",):
+                flips += 1
+                e = e[2][0]
         if e[0] not in ("call", "ucall"):
             raise ValueError("result is not a single delegated comparison: %s" % fmt_expr(e))
         orig = e[5] if e[0] == "call" else e[1]
